@@ -100,6 +100,14 @@ func callbackName(ci ssa.CallInstruction) string {
 	if isValidatorCall(ci) {
 		return "validate"
 	}
+	// an element of Server.types: the type-map extension functions registered by ExtendTypes
+	if u, ok := cc.Value.(*ssa.UnOp); ok {
+		if ia, ok := u.X.(*ssa.IndexAddr); ok {
+			if fr, ok := core.FieldOfValue(ia.X); ok && fr.Is(pkWire, "Server", "types") {
+				return "extendTypes"
+			}
+		}
+	}
 	switch v := cc.Value.(type) {
 	case *ssa.FreeVar:
 		return "freevar:" + v.Name()
@@ -211,7 +219,18 @@ func (tc *traceClient) Return(x *core.TSCtx, r *ssa.Return, s string, err core.E
 	return joinState(open, tc.rule.ret(tc, x, r, q, err))
 }
 
-func (tc *traceClient) Edge(x *core.TSCtx, from, to *ssa.BasicBlock, s string) string { return s }
+// edgeRule is implemented by rules that react to CFG edges.
+type edgeRule interface {
+	edge(tc *traceClient, x *core.TSCtx, from, to *ssa.BasicBlock, q string) string
+}
+
+func (tc *traceClient) Edge(x *core.TSCtx, from, to *ssa.BasicBlock, s string) string {
+	if er, ok := tc.rule.(edgeRule); ok {
+		open, q := splitState(s)
+		return joinState(open, er.edge(tc, x, from, to, q))
+	}
+	return s
+}
 
 // ---------- error origins
 
